@@ -806,8 +806,40 @@ func ruleRoleChain(p *Prog, r *Result) {
 						continue
 					}
 					c, isCall := a.X.(*ssa.Call)
-					if !isCall || p.calleeName(&c.Call) != prim {
+					if !isCall {
 						continue
+					}
+					isKey := func(v ssa.Value) bool { return derivesFrom(v, func(x ssa.Value) bool { return x == fetchKey }) }
+					guardAtoms := dominatingAtoms(b)
+					if p.calleeName(&c.Call) != prim {
+						// the region test may live in a predicate helper of the plan: `if p.pastEnd(key) { break }`
+						h := c.Call.StaticCallee()
+						bv, isB := constBool(a.Y)
+						if h == nil || !p.InPkg(h) || !isB || len(h.Blocks) == 0 {
+							continue
+						}
+						helperTrue := (a.Op == token.EQL) == bv
+						c2, a2, ok2 := p.predicateCore(h, prim)
+						if !ok2 || !helperTrue {
+							continue
+						}
+						outer := c
+						isKey = func(v ssa.Value) bool {
+							return derivesFrom(v, func(x ssa.Value) bool {
+								pa, ok := x.(*ssa.Parameter)
+								if !ok {
+									return false
+								}
+								for i, hp := range h.Params {
+									if hp == pa && i < len(outer.Call.Args) {
+										return derivesFrom(outer.Call.Args[i], func(y ssa.Value) bool { return y == fetchKey })
+									}
+								}
+								return false
+							})
+						}
+						guardAtoms = append(guardAtoms, dominatingAtoms(c2.Block())...)
+						c, a = c2, a2
 					}
 					// is this the exit edge? the successor leaves the innermost loop containing b
 					var inner *Loop
@@ -820,10 +852,10 @@ func ruleRoleChain(p *Prog, r *Result) {
 						continue
 					}
 					a0, a1 := c.Call.Args[0], c.Call.Args[1]
-					keyFirst := derivesFrom(a0, func(x ssa.Value) bool { return x == fetchKey })
+					keyFirst := isKey(a0)
 					var boundArg ssa.Value = a1
 					if !keyFirst {
-						if derivesFrom(a1, func(x ssa.Value) bool { return x == fetchKey }) {
+						if isKey(a1) {
 							boundArg = a0
 						} else {
 							why = "the region test does not examine the fetched key"
@@ -860,7 +892,7 @@ func ruleRoleChain(p *Prog, r *Result) {
 						}
 						// guarded by End != nil
 						nilGuard := false
-						for _, da := range dominatingAtoms(b) {
+						for _, da := range guardAtoms {
 							if da.Op == token.NEQ && isNilConst(da.Y) && isFieldLoad(da.X, tn, fld) {
 								nilGuard = true
 							}
@@ -1101,4 +1133,56 @@ func flagTrueAfter(L *Loop, flag *ssa.Phi, eb *ssa.BasicBlock, si int) bool {
 		}
 	}
 	return any && res
+}
+
+// predicateCore: h is a Boolean predicate helper whose result is true only when a call of
+// primitive prim satisfies one comparison: `return guard && prim(..) OP k`. Returns that
+// call and the atom (on the call) under which h returns true.
+func (p *Prog) predicateCore(h *ssa.Function, prim string) (*ssa.Call, Atom, bool) {
+	res := h.Signature.Results()
+	if res.Len() != 1 {
+		return nil, Atom{}, false
+	}
+	if bt, ok := res.At(0).Type().Underlying().(*types.Basic); !ok || bt.Kind() != types.Bool {
+		return nil, Atom{}, false
+	}
+	var core ssa.Value
+	okAll := true
+	var visit func(v ssa.Value, d int)
+	visit = func(v ssa.Value, d int) {
+		if bv, isC := constBool(v); isC {
+			if bv {
+				okAll = false // an unconditional true
+			}
+			return
+		}
+		if ph, ok := v.(*ssa.Phi); ok && d < 4 {
+			for _, e := range ph.Edges {
+				visit(e, d+1)
+			}
+			return
+		}
+		if core != nil && core != v {
+			okAll = false
+			return
+		}
+		core = v
+	}
+	for _, b := range h.Blocks {
+		if ret := retOf(b); ret != nil {
+			visit(retVal(ret, 0), 0)
+		}
+	}
+	if !okAll || core == nil {
+		return nil, Atom{}, false
+	}
+	a, ok := condAtom(core, true)
+	if !ok {
+		return nil, Atom{}, false
+	}
+	c, isCall := a.X.(*ssa.Call)
+	if !isCall || p.calleeName(&c.Call) != prim {
+		return nil, Atom{}, false
+	}
+	return c, a, true
 }
